@@ -4,15 +4,24 @@ from common import *
 
 
 def features_from_cargo():
-    """The message features of the configuration under test (all_msgs in /repo/Cargo.toml)."""
+    """The message features compiled into the configuration under test: what the harness' dependency on rtcm-rs switches on
+    (the default features), resolved through group features (all_msgs = [...], msm = [...], ...)."""
     txt = open(os.path.join(REPO, "Cargo.toml")).read()
-    m = re.search(r"all_msgs\s*=\s*\[(.*?)\]", txt, re.S)
-    if not m:
-        raise ToolError("cannot find all_msgs in Cargo.toml")
-    nums = [int(x) for x in re.findall(r'"msg(\d+)"', m.group(1))]
-    declared = set(int(x) for x in re.findall(r'^msg(\d+)\s*=\s*\[\s*\]', txt, re.M))
-    if set(nums) != declared:
-        raise ToolError("all_msgs and the msgNNNN feature declarations differ: %s" % sorted(set(nums) ^ declared))
+    decl = {m.group(1): re.findall(r'"([^"]+)"', m.group(2)) for m in re.finditer(r"^([A-Za-z0-9_\-]+)\s*=\s*\[(.*?)\]", txt, re.S | re.M)}
+    if "default" not in decl:
+        raise ToolError("cannot find the default feature set in Cargo.toml")
+    seen, todo, nums = set(), ["default"], set()
+    while todo:
+        f = todo.pop()
+        if f in seen:
+            continue
+        seen.add(f)
+        m = re.fullmatch(r"msg(\d+)", f)
+        if m:
+            nums.add(int(m.group(1)))
+        todo += [x for x in decl.get(f, []) if not x.startswith("dep:") and "/" not in x]
+    if len(nums) < 50:
+        raise ToolError("only %d message features reachable from the default features" % len(nums))
     return sorted(nums)
 
 
